@@ -11,6 +11,7 @@
   bytes) or one gc run; a run is ANY list of events.
 -/
 import Hy.Proofs.GeckoReasm
+import Hy.Gen.TransGecko
 set_option linter.unusedSimpArgs false
 namespace Hy.Props.C14
 open Hy Hy.Gecko
@@ -438,5 +439,44 @@ theorem malformed_dropped (st : St) (src : Nat) (d : Bytes) (now : Nat) (tie : K
     · rfl
 
 example : decodeT (([byte 0x80, byte 1, byte 0x19, byte 0, byte 0] : Bytes).take bufferSize) = .invalid := by decide
+
+/-! ### `randomPadLen` as TRANSLATED from the current Go source equals the model's
+
+`Hy.Gen.TransGecko.geckoPacketConn_randomPadLen` is regenerated on every run by `verifgen translate`
+from the text of `(*geckoPacketConn).randomPadLen` in extras/obfs/gecko.go (go/ast → Lean: Go's
+`int` = int64 and `uint16` wrap-around explicit; `smSaltLen`, `geckoHeaderSize` resolved to their
+current values; `g.minPkt`, `g.maxPkt` are parameters; `randIntn`, which reads crypto/rand, is a
+function parameter `rnd`).  For EVERY configuration, chunk length and random source the translation
+returns what the model's `randomPadLen` returns on the draw `rnd (padDrawBound …)` — in particular
+the bound handed to `randIntn` is the model's `padDrawBound` — so the size-range theorems of this
+file are about the repository's current arithmetic, with no sampling for this function.
+Ranges: sizes below 2^62 (no int64 overflow); `randIntn` returns a non-negative int. -/
+theorem randomPadLen_translation_eq (c : Cfg) (chunkLen : Nat) (rnd : Int → Int)
+    (hmin : c.minPkt < 4611686018427387904) (hmax : c.maxPkt < 4611686018427387904)
+    (hlen : chunkLen < 4611686018427387904)
+    (hr : ∀ n, 0 ≤ rnd n ∧ rnd n < 4611686018427387904) :
+    Gen.TransGecko.geckoPacketConn_randomPadLen c.maxPkt c.minPkt chunkLen rnd
+      = ((randomPadLen c chunkLen (rnd (padDrawBound c chunkLen)).toNat : Nat) : Int) := by
+  have hs : saltLen = 8 := by decide
+  have hh : headerSize = 5 := by decide
+  have hrr := hr (padDrawBound c chunkLen)
+  -- the draw: name the model side's `rnd (padDrawBound …)`, then show the translation calls `rnd` there too
+  generalize hR : rnd ((padDrawBound c chunkLen : Nat) : Int) = r at hrr ⊢
+  have harg : ∀ a : Int, a = ((padDrawBound c chunkLen : Nat) : Int) → rnd a = r := fun a h => by rw [h, hR]
+  unfold Gen.TransGecko.geckoPacketConn_randomPadLen randomPadLen
+  -- every int64 wrap whose argument is in range (by the hypotheses) is the identity
+  simp (disch := omega) only [GoInt.i64_of_range, hs, hh]
+  by_cases hlo : max c.minPkt (8 + 5 + chunkLen) > c.maxPkt
+  · rw [if_pos hlo, if_pos (by omega)]; rfl
+  · rw [if_neg hlo, if_neg (by omega)]
+    rw [harg]
+    · simp (disch := omega) only [GoInt.i64_of_range]
+      unfold GoInt.u16; omega
+    · unfold padDrawBound
+      simp only [hs, hh]
+      omega
+
+example : Gen.TransGecko.geckoPacketConn_randomPadLen 1200 512 100 (fun n => n - 1) = 1087 := by decide
+example : Gen.TransGecko.geckoPacketConn_randomPadLen 1200 512 1300 (fun n => n - 1) = 0 := by decide
 
 end Hy.Props.C14
